@@ -190,6 +190,17 @@ def register_commute(reg):
     k.ens("moved-operation-is-of-the-same-kind",
           lambda c: no_X(c, lambda me, cur, C, f, s, d: z3.Implies(f != smt.NONE, z3.And(smt.typ(f) == smt.typ(me),
                                                                                       z3.Implies(smt.typ(me) == c.ex.types.cid(c.ex.repo.cls("PartialJoin")), f == me)))))
+    def no_hidden_shadow(c):
+        me, cur = c.self.z, c.attr(c.current, "operation").z
+        A = c.ex.spec.A
+        cidf = lambda n: c.ex.types.cid(c.ex.repo.cls(n))  # noqa: E731
+        tcols = c.attr(c.attr(c.current, "target"), "columns").z
+        hidden = z3.SetDifference(tcols, A("Projection", "columns")(cur))
+        Fc = A("BaseRelation", "columns")(A("PartialJoin", "fixed")(me))
+        return B(z3.Implies(z3.And(smt.typ(me) == cidf("PartialJoin"), smt.typ(cur) == cidf("Projection"), c.attr(c.result, "first").z != smt.NONE),
+                            z3.SetIntersect(hidden, Fc) == smt.EMPTY_TAGS))
+
+    k.ens("a-join-moves-past-a-projection-only-if-no-hidden-column-is-shadowed", no_hidden_shadow)
     k.ens("a-partially-moved-projection-keeps-what-the-existing-operation-needs",
           lambda c: no_X(c, lambda me, cur, C, f, s, d: z3.Implies(z3.And(z3.Not(d), f != smt.NONE), z3.IsSubset(V.opreq(cur), V.opreq(f)))))
     k.ens("a-partially-moved-projection-keeps-what-the-request-needs",
